@@ -61,7 +61,8 @@ def cases(ctx):
                     for ff in fieldsets:
                         for policy in (False, True, 'inline'):
                             for via in ('arg', 'config'):
-                                evs = (None, 'ERR') if (policy is False and form not in ('rowmap', 'rowmapmany')) else (None,)
+                                # errorvalue must be used under False and *ignored* under True / 'inline'
+                                evs = (None, 'ERR') if (form not in ('rowmap', 'rowmapmany') and (policy is False or n <= 3)) else (None,)
                                 for ev in evs:
                                     pres = (0, 1, 2) if form == 'rowmapmany' and failrows else (0,)
                                     if n > 4:
